@@ -368,7 +368,7 @@ def oracle(line, f, model):
                 bad.append(('readmission', 'address %s admitted while already in the table' % e[1], True))
             else:
                 table.append(e[1])
-            life.setdefault(e[1], []).append({'w': [], 'r': [], 'closed': None, 'removed': False, 'pos': hpos})
+            life.setdefault(e[1], []).append({'w': [], 'r': [], 'closed': None, 'removed': False, 'pos': hpos, 'lp': int(e[2])})
         elif e[0] == 'rm':
             nrm += 1
             if e[1] in table:
@@ -441,17 +441,24 @@ def oracle(line, f, model):
         if e[0] == 'o' and e[1] == 'u' and sent.get(e[3], [0, 0, e[2]])[2] != e[2]:
             bad.append(('unicast-target', 'unicast drained for %s was sent to %s' % (e[2], sent[e[3]][2]), True))
     # --- (F) clients
-    kth = {}
+    # which stay in the table belongs to which client connection: same address, and the server created the stream (its
+    # last_pong, logged at admission) at the moment the client read the 101 response — the closest pair wins (a connection
+    # that was reset before its admission is skipped by the loop because peer_addr() fails, so counting would go wrong)
+    owner = {}
+    for ad, lives in life.items():
+        recs = [c for c in f['C'] if c['addr'] == ad]
+        for lf in lives:
+            free = [c for c in recs if id(c) not in owner]
+            if free:
+                best = min(free, key=lambda c: abs(c['t_open'] - lf['lp']))
+                owner[id(best)] = lf
     for c in f['C']:
-        k = kth.get(c['addr'], 0)
-        kth[c['addr']] = k + 1
-        lives = life.get(c['addr'], [])
-        lf = lives[k] if k < len(lives) else None
+        lf = owner.get(id(c))
         who = 'client %d (%s, end %s)' % (c['client'], c['addr'], c['end'])
         if lf is None:
             if c['recv']:
                 bad.append(('phantom-delivery', who + ' was never admitted but received data', True))
-            if later_complete(-1, c['t_open'] + 100 * MS):
+            if c['end'] in 'aqrv' and later_complete(-1, c['t_open'] + 100 * MS):
                 bad.append(('never-admitted', who + ' saw the 101 response 100 ms before a completed iteration started '
                             'but was never admitted', True))
             continue
